@@ -15,6 +15,7 @@ import (
 	"strings"
 
 	"github.com/tikv/pd/server/config"
+	"verif/harness/lib/kvx"
 )
 
 // consistent makes the stored configuration the served one (an accepted unfaulted update) and
@@ -419,9 +420,24 @@ func (ru *running) concurrentRunning(thorough bool) {
 		return
 	}
 	ru.kv.ResetFaults()
-	// a store limit entry for store 1 and a stored configuration equal to the served one
-	if ok, msg := ru.storeLimitCop("add-peer", 15).st.do(); !ok {
-		r.Inconclusive("concurrent-running: setup store limit: %s", msg)
+	// a store limit entry for store 1 and a stored configuration equal to the served one. The
+	// random updates before may have left "store-limit": null served (accepted by the setter);
+	// pd's store-limit path then panics - judged like any other request, then repaired.
+	setup := ru.storeLimitCop("add-peer", 15).st
+	ru.caseNo++
+	res := ru.exec(setup, kvx.NoFault)
+	if res.panicked != nil {
+		ru.judge(setup, res)
+		sc := ru.s.GetScheduleConfig()
+		sc.StoreLimit = map[uint64]config.StoreLimitConfig{}
+		if err := ru.s.SetScheduleConfig(*sc); err != nil {
+			r.Inconclusive("concurrent-running: cannot repair a null store-limit: %v", err)
+			return
+		}
+		res = ru.exec(setup, kvx.NoFault)
+	}
+	if res.panicked != nil || !res.Accepted {
+		r.Inconclusive("concurrent-running: setup store limit: %v %s", res.panicked, res.Msg)
 		return
 	}
 	if !ru.consistent() {
@@ -471,10 +487,6 @@ func (ru *running) concurrentRunning(thorough bool) {
 		{partners[0], ru.schedCall("leader-schedule-limit=in", func(c *config.ScheduleConfig) { c.LeaderScheduleLimit = 9 })},
 	}
 	saved := raceFaults
-	if !thorough {
-		raceFaults = raceFaults[:3]
-		groups = groups[1:] // the same-section group meets both root causes
-	}
 	ru.inflightGrid("inflight-across-leader-change-single", ru.copOf(partners[0]), reloadCop(relead), noCop(), restore)
 	for _, g := range groups {
 		ru.inflightGrid("inflight-across-leader-change", ru.copOf(g[0]), reloadCop(relead), ru.copOf(g[1]), restore)
